@@ -17,7 +17,7 @@ verus! {
 
 pub mod error {
     use vstd::prelude::*;
-    pub enum S3ErrorCode { AccessDenied, NotImplemented, Other }
+    pub enum S3ErrorCode { AccessDenied, NotImplemented, NotSignedUp, Other }
     pub struct S3Error { pub code: S3ErrorCode }
     impl S3Error {
         pub fn new(code: S3ErrorCode) -> (r: S3Error) ensures r.code == code { S3Error { code } }
@@ -48,6 +48,36 @@ pub mod signature {
     // R-dynauth: `&dyn S3Auth` is read as a reference to the opaque provider object
     use crate::auth::S3AuthObj;
 //@@ extract require_auth file=crates/s3s/src/ops/signature.rs item="fn require_auth" rewrites=attr,ret,dynauth,closure:1:S3Error
+}
+
+pub mod simple_auth {
+    use vstd::prelude::*;
+    use crate::error::*;
+    /// auth::SecretKey (opaque; Clone returns the same secret)
+    pub struct SecretKey { pub o: u64 }
+    impl Clone for SecretKey {
+        #[verifier::external_body]
+        fn clone(&self) -> (r: SecretKey) ensures r == *self { unimplemented!() }
+    }
+    /// std::collections::HashMap<String, SecretKey> viewed as a map from the key's text
+    pub struct HashMap { pub o: u64 }
+    impl HashMap {
+        pub uninterp spec fn view(&self) -> Map<Seq<char>, SecretKey>;
+        #[verifier::external_body]
+        pub fn get(&self, k: &str) -> (r: Option<&SecretKey>)
+            ensures (r matches Some(v) ==> self@.contains_key(k@) && self@[k@] == *v), (r is None ==> !self@.contains_key(k@))
+        { unimplemented!() }
+        #[verifier::external_body]
+        pub fn insert(&mut self, k: String, v: SecretKey) -> (r: Option<SecretKey>)
+            ensures final(self)@ == old(self)@.insert(k@, v), (r matches Some(p) ==> old(self)@.contains_key(k@) && old(self)@[k@] == p), (r is None ==> !old(self)@.contains_key(k@))
+        { unimplemented!() }
+    }
+    pub struct SimpleAuth { pub map: HashMap }
+    impl SimpleAuth {
+//@@ extract SimpleAuth_register file=crates/s3s/src/auth/simple_auth.rs item="impl SimpleAuth/fn register" rewrites=attr,ret
+//@@ extract SimpleAuth_lookup file=crates/s3s/src/auth/simple_auth.rs item="impl SimpleAuth/fn lookup" rewrites=attr,ret
+//@@ extract SimpleAuth_get_secret_key file=crates/s3s/src/auth/simple_auth.rs item="impl S3Auth for SimpleAuth/fn get_secret_key" rewrites=attr,async,ret
+    }
 }
 
 pub mod route {
